@@ -35,6 +35,9 @@ Commands:
                                            the argument forms of `Track.operate` (`-`: third argument omitted)
                                            → ok <weight list after the call | none> <returned list | none> <names> <signals ;> | err:<kind>
   seq <sc> <dim> <names> <signals ;> <kspec> → ok <names> <signals ;> <globals> | err:<kind> <globals>
+  seqn <sc> <n> <dim> <names> <signals ;> <kspec>
+                                           `filter_seq` called n times on the same track with the same kernel object
+                                           → the replies of `seq` after every call, separated by ` # ` (stops at a failure)
   session <sc> <n> { <dim> <names> <signals ;> <m> <kspec of m tokens> }*n
                                            → n replies of `seq` separated by ` # ` -/
 namespace TV.Drv.C15
@@ -246,6 +249,10 @@ def handleSc (sc : Sc α) (cmd : String) (args : List String) : String :=
     match seqArg? sc ks, track? sc names sigs, dim? dim with
     | some k, some t, some d => showCall sc (filterSeqCall Globals.initial t k d)
     | _, _, _ => "bad-request"
+  | "seqn", n :: dim :: names :: sigs :: ks =>
+    match n.toNat?, seqArg? sc ks, track? sc names sigs, dim? dim with
+    | some n, some k, some t, some d => joinWith " # " ((filterSeqRepeat Globals.initial t k d n).map (showCall sc))
+    | _, _, _, _ => "bad-request"
   | "smooth", names :: sigs :: ks =>
     match kspec? sc ks, track? sc names sigs with
     | some (KArg.obj false _ f sup S), some t => showCall sc (smooth Globals.initial t f sup S)
